@@ -461,18 +461,46 @@ static Outcome p_cookies(Case const &cs) {
 
     // 5. an encrypting back-end reveals neither the payload nor whether two payloads are equal ------------------------------------------
     if (A.aes()) {
-        std::vector<std::string> ciphers;
-        for (auto &is : iss) ciphers.push_back(is.cipher);
+        std::vector<std::string> ciphers, labels;
+        for (auto &is : iss) { ciphers.push_back(is.cipher); labels.push_back("initial save"); }
         g_now = c.now;
-        ciphers.push_back(std::string());  strict_cookie(sa.save_raw(T.payload, T.expiry), ciphers.back());   // same payload, same encryptor object
-        { Server fresh(A); ciphers.push_back(std::string()); strict_cookie(fresh.save_raw(T.payload, T.expiry), ciphers.back()); }   // same payload, fresh encryptor
-        { Server fresh(A); ciphers.push_back(std::string()); strict_cookie(fresh.save_raw(T.payload, T.expiry), ciphers.back()); }
+        ciphers.push_back(std::string());  strict_cookie(sa.save_raw(T.payload, T.expiry), ciphers.back()); labels.push_back("same payload, same encryptor");
+        { Server fresh(A); ciphers.push_back(std::string()); strict_cookie(fresh.save_raw(T.payload, T.expiry), ciphers.back()); labels.push_back("same payload, fresh encryptor 1"); }
+        { Server fresh(A); ciphers.push_back(std::string()); strict_cookie(fresh.save_raw(T.payload, T.expiry), ciphers.back()); labels.push_back("same payload, fresh encryptor 2"); }
         model.by_key[sa.km.id][ciphers[ciphers.size() - 3]] = std::make_pair(T.payload, T.expiry);
         g_now = tclock;
-        std::unordered_set<std::string> blocks; size_t total = 0;
-        for (auto &ct : ciphers) for (size_t i = 0; i + 16 <= ct.size(); i += 16) { blocks.insert(ct.substr(i, 16)); total++; }
+        // Interleavings of decrypt and encrypt on ONE encryptor object (the per-request order is load(X) then save(P)): what the client
+        // supplied must not steer the IV of what is issued next.  P and Q have the same length and differ in the last byte only.
+        {
+            std::string P = T.payload; for (int i = 0; P.size() < 48 || i < 8; i++) P += char('p' + i % 7);
+            std::string Q = P; Q.back() = char(Q.back() ^ 0x55);
+            std::string bad = cookie_of(flip_bit(T.cipher, (L - 1) * 8));
+            long long pexp = T.expiry + 9;
+            auto ld = [&](Server &s, std::string const &text) { s.jar.value = text; s.jar.reset(); std::string d; time_t e = 0; VR.eval(); return s.api->load(*s.si, d, e); };
+            auto sv = [&](Server &s, std::string const &pl, std::string const &what) { std::string ct; strict_cookie(s.save_raw(pl, pexp), ct); ciphers.push_back(ct); labels.push_back(what); };
+            bool okx = ld(sa, T.text); V_CHECK(okx, "reject-genuine:interleave", "a genuine unexpired cookie was rejected cfg={" + describe(A) + "}");
+            sv(sa, P, "load(X) save(P) #1"); ld(sa, T.text); sv(sa, P, "load(X) save(P) #2");
+            ld(sa, T.text); sv(sa, Q, "load(X) save(Q)");
+            ld(sa, T.text); ld(sa, T.text); sv(sa, P, "load(X) load(X) save(P)");
+            ld(sa, T.text); ld(sa, U.text); sv(sa, P, "load(X) load(U) save(P)");
+            ld(sa, bad); sv(sa, P, "load(bad) save(P) #1"); ld(sa, bad); sv(sa, P, "load(bad) save(P) #2");
+            ld(sa, T.text); ld(sa, bad); sv(sa, P, "load(X) load(bad) save(P)");
+            sv(sa, P, "save(P) save(P) a"); sv(sa, P, "save(P) save(P) b");
+            for (int f = 0; f < 2; f++) {   // two requests on fresh encryptor objects presenting the same cookie
+                Server fresh(A); std::string n = std::to_string(f + 1);
+                ld(fresh, T.text); sv(fresh, P, "fresh" + n + ": load(X) save(P)");
+                ld(fresh, T.text); sv(fresh, Q, "fresh" + n + ": load(X) save(Q)");
+                ld(fresh, bad); sv(fresh, P, "fresh" + n + ": load(bad) save(P)");
+            }
+            VR.cls("secrecy.interleavings");
+        }
+        std::map<std::string, size_t> blocks;
         VR.eval();
-        V_CHECK(blocks.size() == total, "secrecy:repeated-cipher-block", "two aligned 16-byte blocks coincide among the cipher texts of one key (equal payloads / repeated plain text blocks are visible) cfg={" + describe(A) + "} payload=" + vr::show(T.payload, 60));
+        for (size_t n = 0; n < ciphers.size(); n++) for (size_t i = 0; i + 16 <= ciphers[n].size(); i += 16) {
+            auto ins = blocks.insert(std::make_pair(ciphers[n].substr(i, 16), n));
+            V_CHECK(ins.second, "secrecy:repeated-cipher-block", "aligned 16-byte block " + std::to_string(i / 16) + " of cipher text '" + labels[n] + "' also occurs in '" + labels[ins.first->second] +
+                    "': equal payloads / equal plain text blocks are visible, or the IV is not a fresh nonce cfg={" + describe(A) + "} payload=" + vr::show(T.payload, 60));
+        }
         for (auto &is : iss) {
             if (is.payload.size() < 8) continue;
             std::unordered_set<std::string> win;
@@ -516,6 +544,20 @@ static Outcome p_cookies(Case const &cs) {
             VR.nontrivial(vr::fnv(text, (uint64_t)t));
         }
         g_now = c.now;
+        if (A.aes()) {   // two requests present the same cookie and store the same new data: the issued cookies must be unrelated
+            std::vector<std::string> cts; cts.push_back(cipher);
+            for (int r = 0; r < 3; r++) {
+                Jar j; j.value = text; VR.eval();
+                { cppcms::session_interface s(*sa.pool, j); bool l = s.load(); V_CHECK(l, "iface:roundtrip", "genuine cookie not loaded"); s.set("k", v1 + "#changed-in-this-request"); s.save(); }
+                std::string ct; V_CHECK(j.sets == 1 && strict_cookie(j.value, ct), "iface:save-no-cookie", "no cookie issued for changed data: " + vr::show(j.value, 80));
+                cts.push_back(ct);
+            }
+            std::set<std::string> seen;
+            for (size_t n = 0; n < cts.size(); n++) for (size_t i = 0; i + 16 <= cts[n].size(); i += 16)
+                V_CHECK(seen.insert(cts[n].substr(i, 16)).second, "secrecy:repeated-cipher-block", "session_interface: load(X) + save(same data) in request " + std::to_string(n) + " issued a cookie sharing aligned block " + std::to_string(i / 16) +
+                        " with the presented cookie or with the cookie of an earlier identical request cfg={" + describe(A) + "}");
+            VR.cls("secrecy.iface-requests");
+        }
         for (int i = 0; i < 24; i++) {
             size_t bit = i < 8 ? cipher.size() * 8 - 1 - i : rng.below(cipher.size() * 8);
             VR.eval(); VR.cls("iface.bitflip");
